@@ -331,16 +331,19 @@ struct Layout {
     probe_indent: &'static str,
     /// text after a probe definition on its line (a comment whose characters take several bytes each)
     probe_tail: &'static str,
+    /// what comes before the module line: 0 nothing, 1 two blank lines, 2 a directive line, 3 indentation (the first
+    /// source block of the file then does not start at row 1, column 1)
+    preamble: u8,
 }
 
-const PLAIN: Layout = Layout { dir_indent: "", after_hash: "", trailer: "", eol: "\n", final_newline: true, probe_indent: "", probe_tail: "" };
+const PLAIN: Layout = Layout { dir_indent: "", after_hash: "", trailer: "", eol: "\n", final_newline: true, probe_indent: "", probe_tail: "", preamble: 0 };
 
 const DIR_INDENTS: [&str; 3] = ["", "  ", "\t"];
 const AFTER_HASH: [&str; 3] = ["", " ", "\t "];
 const TRAILERS: [&str; 4] = ["", " // note #else", "  ", " // — ≤ 漢字 #endif"];
 const EOLS: [&str; 2] = ["\n", "\r\n"];
 /// (indent, tail) of probe lines: plain, indented, followed by a comment of multi-byte characters
-const PROBE_STYLES: [(&str, &str); 3] = [("", ""), ("   ", ""), ("", " // — ≤ 漢字 é")];
+const PROBE_STYLES: [(&str, &str); 3] = [("", ""), ("   ", ""), ("", " // — ≤ 漢字 #endif é /* # */")];
 const N_LAYOUTS: u64 = 3 * 3 * 4 * 2 * 2 * 3;
 
 fn layout(idx: u64) -> Layout {
@@ -353,6 +356,8 @@ fn layout(idx: u64) -> Layout {
         final_newline: d[4] == 0,
         probe_indent: PROBE_STYLES[d[5] as usize].0,
         probe_tail: PROBE_STYLES[d[5] as usize].1,
+        // (not a dimension of its own: it rotates with the others, so every value meets every sequence)
+        preamble: ((d[0] + d[2] + d[5] + d[3]) % 4) as u8,
     }
 }
 
@@ -365,7 +370,17 @@ struct FileSpec {
 
 impl FileSpec {
     fn new(l: &Layout) -> Self {
-        FileSpec { lines: vec![PLine { text: "module M".into(), probe: None }], eol: l.eol, final_newline: l.final_newline }
+        let mut lines = vec![];
+        match l.preamble {
+            1 => {
+                lines.push(PLine { text: String::new(), probe: None });
+                lines.push(PLine { text: "  ".into(), probe: None });
+            }
+            2 => lines.push(PLine { text: "#define Z9".into(), probe: None }),
+            _ => {}
+        }
+        lines.push(PLine { text: format!("{}module M", if l.preamble == 3 { "   " } else { "" }), probe: None });
+        FileSpec { lines, eol: l.eol, final_newline: l.final_newline }
     }
     fn next_row(&self) -> usize {
         self.lines.len() + 1
